@@ -3,34 +3,8 @@
    once for every numeric structure and every engine record.  Python failure
    points are explicit error results.  No proofs here. *)
 From Coq Require Import QArith List String Arith Bool.
-From SM Require Import Num Graph Engine Expr.
+From SM Require Import Num Graph Engine Expr Types.
 Import ListNotations.
-
-Inductive okind := OIdeal | OMain | ORamp (is_in : bool) | OSimp (limited : bool).
-Inductive dkind := DFree | DCong.
-Record linkinfo := { lN : nat; llanes : Q; lvsl : option (list nat) }.
-Record universe := { linkd : nat -> linkinfo; okind_of : nat -> okind; dkind_of : nat -> dkind }.
-
-Record params (A : Type) := {
-  lp : nat -> lpar -> A;       (* link parameters L, rho_max, rho_crit, v_free, a, turnrate, alpha *)
-  ocap : nat -> A;             (* ramp capacity *)
-  gT : A; gtau : A; geta : A; gkappa : A;
-  gdelta : option A; gphi : option A }.
-Arguments lp {A}. Arguments ocap {A}. Arguments gT {A}. Arguments gtau {A}. Arguments geta {A}.
-Arguments gkappa {A}. Arguments gdelta {A}. Arguments gphi {A}.
-
-Record state (A : Type) := {
-  s_rho : nat -> list A; s_v : nat -> list A;       (* link states *)
-  s_w : nat -> A; s_uo : nat -> A; s_do : nat -> A;  (* origin queue, control, demand *)
-  s_vc : nat -> list A;                              (* VSL link speed limits *)
-  s_dd : nat -> A }.                                 (* congested-destination scenario *)
-Arguments s_rho {A}. Arguments s_v {A}. Arguments s_w {A}. Arguments s_uo {A}.
-Arguments s_do {A}. Arguments s_vc {A}. Arguments s_dd {A}.
-
-Record options := { pi_v : bool; pi_rho : bool; pi_w : bool;
-                    pn_v : bool; pn_rho : bool; pn_w : bool }.
-Definition no_options := {| pi_v := false; pi_rho := false; pi_w := false;
-                            pn_v := false; pn_rho := false; pn_w := false |}.
 
 (* Python failure points *)
 Inductive err := EAssert       (* assert len(links) == 1 in _get_exiting/_get_entering_link *)
@@ -48,11 +22,6 @@ Fixpoint mapM {T U} (f : T -> res U) (l : list T) : res (list U) :=
   | [] => Ok []
   | x :: xs => y <- f x ;; ys <- mapM f xs ;; Ok (y :: ys)
   end.
-
-Definition is_ramp (k : okind) : bool :=
-  match k with ORamp _ | OSimp _ => true | _ => false end.
-Definition is_queued (k : okind) : bool :=
-  match k with OIdeal => false | _ => true end.
 
 Section Blocks.
 Context {A : Type} {NA : Num A}.
